@@ -399,7 +399,31 @@ func BaseStubs() map[string]StubFn {
 		}
 		return r.splitSym(strArg(a[0]), sep.S, 4, "split")
 	})
-	st["strings.Fields"] = pure(strings.Fields, nil)
+	st["strings.Fields"] = pure(strings.Fields, func(r *Run, a []value) value {
+		v, ok := a[0].(runesV)
+		if !ok || !v.bytes {
+			panic(unsupported("symbolic argument to strings.Fields"))
+		}
+		// byte vector, ASCII: every byte is classified (white space or not) by a path decision
+		r.asciiVector(v.cps, "strings.Fields")
+		out := []value{}
+		start := -1
+		for i, c := range v.cps {
+			space := r.branch(Or(And(Le(IntT('\t'), c), Le(c, IntT('\r'))), Eq(c, IntT(' '))))
+			if space {
+				if start >= 0 {
+					out = append(out, vecOrString(runesV{cps: v.cps[start:i], bytes: true}))
+					start = -1
+				}
+			} else if start < 0 {
+				start = i
+			}
+		}
+		if start >= 0 {
+			out = append(out, vecOrString(runesV{cps: v.cps[start:], bytes: true}))
+		}
+		return out
+	})
 	st["strings.ToLower"] = pure(strings.ToLower, func(r *Run, a []value) value { return r.runesMap(a[0], "lower") })
 	st["strings.ToUpper"] = pure(strings.ToUpper, func(r *Run, a []value) value { return r.runesMap(a[0], "upper") })
 	st["strings.EqualFold"] = pure(strings.EqualFold, func(r *Run, a []value) value { return r.runesEqualFold(a[0], a[1]) })
@@ -426,8 +450,30 @@ func BaseStubs() map[string]StubFn {
 		return tuple{v, iface{}}
 	}
 	st["strconv.Itoa"] = pure(strconv.Itoa, func(r *Run, a []value) value { return r.formatOne("%d", a[0]) })
-	st["unicode.IsLetter"] = pure(unicode.IsLetter, nil)
-	st["unicode.IsDigit"] = pure(unicode.IsDigit, nil)
+	// unicode classes of a symbolic code point: decided for ASCII (the path is split on c < 0x80;
+	// a non-ASCII symbolic code point is outside the encoder here - C19's alphabet tables are
+	// separate machinery)
+	asciiClass := func(name string, cond func(c *Term) *Term) func(r *Run, a []value) value {
+		return func(r *Run, a []value) value {
+			c, ok := a[0].(*Term)
+			if !ok {
+				panic(unsupported("symbolic argument to " + name))
+			}
+			if !r.branch(And(Le(IntT(0), c), Lt(c, IntT(0x80)))) {
+				panic(unsupported(name + " of a non-ASCII symbolic code point"))
+			}
+			return simplifyBool(cond(c))
+		}
+	}
+	st["unicode.IsLetter"] = pure(unicode.IsLetter, asciiClass("unicode.IsLetter", func(c *Term) *Term {
+		return Or(And(Le(IntT('A'), c), Le(c, IntT('Z'))), And(Le(IntT('a'), c), Le(c, IntT('z'))))
+	}))
+	st["unicode.IsDigit"] = pure(unicode.IsDigit, asciiClass("unicode.IsDigit", func(c *Term) *Term {
+		return And(Le(IntT('0'), c), Le(c, IntT('9')))
+	}))
+	st["unicode.IsSpace"] = pure(unicode.IsSpace, asciiClass("unicode.IsSpace", func(c *Term) *Term {
+		return Or(And(Le(IntT('\t'), c), Le(c, IntT('\r'))), Eq(c, IntT(' ')))
+	}))
 	st["path.Base"] = pure(path.Base, nil)
 	st["path.Dir"] = pure(path.Dir, nil)
 
